@@ -166,7 +166,11 @@ func (j *JWT) Verify(issuerURL, clientID string) error {
 		return err
 	}
 
-	if nbf, ok := claims["nbf"].(float64); ok {
+	if nbfClaim, present := claims["nbf"]; present {
+		nbf, ok := nbfClaim.(float64)
+		if !ok {
+			return fmt.Errorf("invalid 'nbf' claim")
+		}
 		if err := verifyNotBefore(nbf); err != nil {
 			return err
 		}
